@@ -27,7 +27,7 @@ for ID in sorted(os.listdir(ROOT)):
         for f in ("patch.diff", "demo.rs", "notes.md", "confirm.log"):
             shutil.copy(os.path.join(sd, f), os.path.join(dst, f))
         notes = open(os.path.join(sd, "notes.md")).read()
-        meta = {"id": name, "property": ID, "variant": "small in-place edit" if (v == "a" or PREFIX in ("r3", "r4", "r5", "r6", "r7")) else "refactoring-shaped change",
+        meta = {"id": name, "property": ID, "variant": "small in-place edit" if (v == "a" or PREFIX in ("r3", "r4", "r5", "r6", "r7", "r8")) else "refactoring-shaped change",
                 "base_commit": head,
                 "needs_to_manifest": " ".join(notes.split())[:900],
                 "confirmed_by": ["git apply patch.diff on a clean worktree of %s" % head,
